@@ -213,6 +213,23 @@ pub fn apply(fx: &NodeFx, r: &Value) -> Value {
                 .add_keysend(payee, payment_hash(r["h"].as_str().unwrap()), amt)
                 .map(|b| json!({"flag": if b { 1 } else { 0 }}))
         }
+        // the receive path: the node signs an invoice of its own ("v1" / "v2": two different invoices, by amount)
+        "IssueInvoice" => {
+            let h = r["h"].as_str().unwrap();
+            let x = hash_byte(h);
+            let amt = if r["v"] == "v1" { 100_000u64 } else { 200_000u64 };
+            InvoiceBuilder::new(Currency::Regtest)
+                .description("issued".into())
+                .payment_hash(Sha256Hash::hash(&[x; 32]))
+                .payment_secret(PaymentSecret([x; 32]))
+                .duration_since_epoch(Duration::from_secs(NOW_SECS - 10))
+                .min_final_cltv_expiry_delta(144)
+                .amount_milli_satoshis(amt)
+                .build_raw()
+                .map_err(|_| Status::invalid_argument("harness: build_raw"))
+                .and_then(|raw| fx.node.sign_bolt11_invoice(raw))
+                .map(|_| json!({}))
+        }
         "NewChannel" => fx.node.new_channel(r["d"].as_u64().unwrap(), &peer_id(), &fx.node).map(|_| json!({})),
         "Setup" => {
             let d = r["d"].as_u64().unwrap();
@@ -272,6 +289,19 @@ pub fn apply(fx: &NodeFx, r: &Value) -> Value {
 }
 
 /// projection onto Node.tla's variables
+/// C11 observation for a signer whose requests have all returned: the fields of the durable view in which a
+/// signer restored from a copy of the store differs from the running one (empty = durable)
+pub fn restart_fields(fx: &NodeFx) -> Vec<String> {
+    match fx.restart_copy() {
+        Err(e) => vec![format!("restore-failed: {}", e)],
+        Ok(fx2) => {
+            let mut out = vec![];
+            json_diff(&durable_state_json(fx), &durable_state_json(&fx2), "", 4, &mut out);
+            out
+        }
+    }
+}
+
 pub fn project(fx: &NodeFx) -> Value {
     let allow: Vec<String> = fx.node.allowlist().unwrap().iter().map(|s| entry_name(s)).collect();
     let mut inv = vec![];
@@ -296,6 +326,15 @@ pub fn project(fx: &NodeFx) -> Value {
             }
         }
     }
+    let mut iss = vec![];
+    {
+        let st = fx.node.get_state();
+        for h in ["h1", "h2"] {
+            if let Some(p) = st.issued_invoices.get(&payment_hash(h)) {
+                iss.push(json!({"h": h, "v": if p.amount_msat == 100_000 { "v1" } else { "v2" }}));
+            }
+        }
+    }
     let mark = fx.node.get_state().dbid_high_water_mark;
     let mut chans = vec![];
     for d in 1..=3u64 {
@@ -312,6 +351,6 @@ pub fn project(fx: &NodeFx) -> Value {
     } else {
         0
     };
-    json!({"allow": allow, "inv": inv, "mark": mark, "chans": chans, "fee": fee})
+    json!({"allow": allow, "inv": inv, "mark": mark, "chans": chans, "fee": fee, "iss": iss})
 }
 
